@@ -266,3 +266,8 @@ def nontrivial(case, result):
     f = int(toks[3][2:], 16)
     E = (f >> (p - 1)) & (2 * emax - 1)
     return E >= emax - 2
+
+
+def prebuild(root):
+    """translator: regenerate coq/Generated/FloatGen.v from /repo/src (the float casts are proved equal to the model in Proofs/FloatGenTie*.v)"""
+    return run_translator(root, "rs2v_float.py", "C14")
